@@ -32,7 +32,7 @@ VARIANTS = [
     V( 'ucmm-handler-reraises', UCMM, "data['enip.status']= 0x08 # Service not supported", "data['enip.status']= 0x08\n            raise", fires=[ 'S-STATUS' ] ),
     V( 'object-status-zero-preset', DEVICE, "data.status = 0x08 # Service not supported, if not recognized or fail to access", "data.status = 0x00", fires=[ 'S-STATUS' ] ),
     V( 'status-extra-logging', LOGIX, "data.status = 0xFF # On Failure: General Error", "log.debug( 'range check' )\n            data.status		= 0xFF", silent=[ 'S-STATUS', 'D-VALIDATE', 'W-ATTR' ] ),
-    V( 'validate-elm-assert-deleted', LOGIX, 'assert elm <= cnt, \\\n "Attribute %r elements requested invalid: %r" % ( attribute, elm )', 'pass', fires=[ 'D-VALIDATE' ] ),
+    V( 'validate-elm-assert-deleted', LOGIX, 'assert elm <= cnt, \\\n "Attribute %r elements requested invalid: %r" % ( attribute, elm )', 'pass', silent=[ 'D-VALIDATE' ], why='since the repair of AQ the count bound is implied by 0 <= beg and endactual <= cnt' ),
     V( 'validate-beg-le-cnt', LOGIX, "assert 0 <= beg < cnt,", "assert 0 <= beg <= cnt,", fires=[ 'D-VALIDATE' ] ),
     V( 'validate-write-capacity-vs-cnt', LOGIX, "assert endmax <= endactual,", "assert endmax <= cnt,", fires=[ 'D-VALIDATE' ] ),
     V( 'validate-store-before-reply-elements', LOGIX, "data.status = 0xFF # On Failure: General Error", "if data.service in (self.WR_TAG_RPY, self.WR_FRG_RPY): attribute[0:1] = data[context].data\n            data.status		= 0xFF", fires=[ 'D-VALIDATE' ] ),
@@ -322,14 +322,15 @@ VARIANTS = [
     V( 'hpace-announce-then-next', HFILES, "yield (f,n,cur),(ts,None)\n continue", "yield (f,n,cur),(ts,None)", fires=[ 'H-PACE' ] ),
     V( 'hpace-due-test-inverted', HFILES, "adv = cur + ( lookahead or 0.0 )\n if ts > adv:\n #log.info", "adv		= cur + ( lookahead or 0.0 )\n                    if ts < adv:\n                        #log.info", fires=[ 'H-PACE' ] ),
     V( 'hpace-no-reread-clock', HFILES, "if ts > adv:\n cur = self.advance()\n adv = cur + ( lookahead or 0.0 )\n if ts > adv:", "if ts > adv:\n                    if ts > adv:", fires=[ 'H-PACE' ] ),
-    V( 'hload-accept-strictly-greater', HFILES, "if self._ts is None or ts >= self._ts:", "if self._ts is None or ts > self._ts:", fires=[ 'H-LOAD' ] ),
+    V( 'hload-accept-strictly-greater', HFILES, "inorder = self._ts is None or ts >= self._ts", "inorder		= self._ts is None or ts > self._ts", fires=[ 'H-LOAD' ] ),
     V( 'hload-drain-with-lookahead', HFILES, "while len( self.future ) and self.future[0][0] <= cur:", "while len( self.future ) and self.future[0][0] <= cur + ( self.lookahead or 0.0 ):", fires=[ 'H-LOAD' ] ),
     V( 'hload-pop-newest', HFILES, "ts,regs = self.future.popleft()", "ts,regs		= self.future.pop()", fires=[ 'H-LOAD' ] ),
     V( 'hload-open-target-cur', HFILES, "self._i = self.open( target=self._ts, after=after,", "self._i	= self.open( target=cur, after=after,", fires=[ 'H-LOAD' ] ),
     V( 'hload-release-on-equal', HFILES, "if self._seen and ( self._ts is None or ts > self._ts ):", "if self._seen and ( self._ts is None or ts >= self._ts ):", fires=[ 'H-LOAD' ] ),
     V( 'hstrict-state-proxy', HFILES, "if self._seen and ( self._ts is None or ts > self._ts ):", "if self.state not in (self.INITIAL, self.SWITCHING) and ( self._ts is None or ts > self._ts ):", fires=[ 'H-STRICT' ],
        why='the defect repaired by fix J: AWAITING on the first record of a file' ),
-    V( 'hstrict-seen-set-before-test', HFILES, "if self._ts is None or ts >= self._ts:\n if self._strict:", "if self._ts is None or ts >= self._ts:\n                            self._seen	= True\n                            if self._strict:", fires=[ 'H-STRICT' ] ),
+    V( 'hstrict-seen-set-before-test', HFILES, "if inorder:\n if self._strict:", "if inorder:\n                        self._seen	= True\n                        if self._strict:", fires=[ 'H-STRICT' ] ),
+    V( 'hload-position-only-for-usable-data', HFILES, "if inorder:\n if self._strict:", "if inorder and js.lstrip()[:1] == '{':\n                        if self._strict:", fires=[ 'H-LOAD' ], why='defect AP' ),
     V( 'hstrict-seen-not-reset', HFILES, "self._strict= True # remains until we see increasing timestamps\n self._seen = False", "self._strict= True # remains until we see increasing timestamps", fires=[ 'H-STRICT' ] ),
     V( 'hstrict-strict-not-set', HFILES, "self._strict= True # remains until we see increasing timestamps", "pass", fires=[ 'H-STRICT', 'H-LOAD' ] ),
     V( 'hstrict-release-by-skipped-record', HFILES, "if self.state in (self.INITIAL, self.SWITCHING, self.AWAITING):\n self.state = self.STREAMING", "if self._strict and self._seen and ( self._ts is None or ts > self._ts ):\n                        self._strict	= False\n                    if self.state in (self.INITIAL, self.SWITCHING, self.AWAITING):\n                        self.state	= self.STREAMING", fires=[ 'H-LOAD' ], why='defect P: a record that may be skipped releases strict' ),
@@ -364,6 +365,46 @@ VARIANTS = [
     V( 'attrkeys-max-int-generator', LOGIX, "att = int( sorted( instance.attribute, key=misc.natural )[-1] ) if instance.attribute else 0", "att			= max( int( a ) for a in instance.attribute ) if instance.attribute else 0", silent=[ 'T-ATTRKEYS' ] ),
     V( 'validate-key-equivalent-rewrite', DEVICE, "if stride == 1 and start < stop and stop <= len( self ) and key.stop in (stop,None):", "if stride == 1 and start < stop <= len( self ) and ( key.stop is None or key.stop == stop ):", silent=[ 'D-VALIDATE' ] ),
     V( 'udp-source-hoisted', MAIN, "try:\n source = rememberable()\n data = dotdict()\n\n # If no/partial EtherNet/IP header received, parsing will fail with a NonTerminal\n # Exception (dfa exits in non-terminal state). Build data.request.enip:\n begun = misc.timer() # waiting for next transaction", "try:\n                data		= dotdict()\n                begun		= misc.timer()", silent=[], fires=[ 'R-ISO' ] ),
+    # ---- round 5 clauses
+    V( 'types-produce-packs-itself', PARSER, "result += b''.join( map( producer, data.get( 'data' )))", "result	       += struct.pack( '<%d%s' % ( len( payload ), cls.TYPES_SUPPORTED[tag_type].struct_format[-1] ), *payload ) if issubclass( cls.TYPES_SUPPORTED[tag_type], TYPE ) else b''.join( map( producer, payload ))", fires=[ 'T-TYPES' ], why='seed C01-13: values the element producer would refuse or coerce are packed raw' ),
+    V( 'types-produce-genexp', PARSER, "result += b''.join( map( producer, data.get( 'data' )))", "result	       += b''.join( producer( v ) for v in data.get( 'data' ))", silent=[ 'T-TYPES', 'T-TYPEDLOOP' ] ),
+    V( 'ncp-given-always-kept', DEFAULTS, "if NCP is None or None not in specificity:", "if NCP is None:", fires=[ 'K-NCPSTATE' ], why='seed C01-15' ),
+    V( 'ncp-test-not-in-spelled-out', DEFAULTS, "if NCP is None or None not in specificity:", "if NCP is None or not ( None in specificity ):", silent=[ 'K-NCPSTATE' ] ),
+    V( 'each-peek-into-member-for-log', DEVICE, 'log.detail( "%s Process on %s: %s", self, target, enip_format( r ))', 'log.detail( "%s Process on %s: %s %s", self, target, target.service[r.service], enip_format( r ))', fires=[ 'P-EACH' ], why='seed C07-15' ),
+    V( 'each-log-text-changed', DEVICE, 'log.detail( "%s Process on %s: %s", self, target, enip_format( r ))', 'log.detail( "%s Processing on %s: %s", self, target, enip_format( r ))', silent=[ 'P-EACH', 'P-CLOSURE' ] ),
+    V( 'fmtpath-class-at-any-position', CLIENT, "elif 'class' in seg and len( numeric ) == 0:", "elif 'class' in seg:", fires=[ 'T-PATHSYNTAX' ], why='seed C12-15' ),
+    V( 'fmtpath-instance-when-any-number', CLIENT, "elif 'instance' in seg and len( numeric ) == 1:", "elif 'instance' in seg and numeric:", fires=[ 'T-PATHSYNTAX' ] ),
+    V( 'fmtpath-class-not-numeric', CLIENT, "elif 'class' in seg and len( numeric ) == 0:", "elif 'class' in seg and not numeric:", silent=[ 'T-PATHSYNTAX' ] ),
+    V( 'routekey-table-keyed-by-raw-text', UCMM, 'self.route = { "{port}/{link}".format( **device.port_link( pl )): addr_port( ap )', 'self.route		= { pl: addr_port( ap )', fires=[ 'K-ROUTEKEY' ], why='seed C15-15' ),
+    V( 'routekey-lookup-other-format', UCMM, 'pl = "{port}/{link}".format( **route_path[0] )', 'pl	= "{port}-{link}".format( **route_path[0] )', fires=[ 'K-ROUTEKEY' ] ),
+    V( 'zonetoken-letter-made-separator', TIMES, 'maketrans( ":-.", "   " )', 'maketrans( ":-.T", "    " )', fires=[ 'T-ZONETOKEN' ], why='seed C17-13' ),
+    V( 'zonetoken-separators-reordered', TIMES, 'maketrans( ":-.", "   " )', 'maketrans( ".:-", "   " )', silent=[ 'T-ZONETOKEN' ] ),
+    V( 'tnet-stream-stricter-int', TNET, "elif tntype == b'#'[0]:\n data[ours] = int( src )", "elif tntype == b'#'[0]:\n                assert src.isdigit()\n                data[ours]	= int( src )", fires=[ 'T-TNET' ], why='seed C20-13' ),
+    V( 'tnet-stream-int-logged-first', TNET, "elif tntype == b'#'[0]:\n data[ours] = int( src )", "elif tntype == b'#'[0]:\n                log.info( 'int' )\n                data[ours]	= int( src )", silent=[ 'T-TNET' ] ),
+    V( 'allowed-text-admits-other', LOGIX, "USINT.tag_type: (BOOL.tag_type,\n USINT.tag_type),\n }", "USINT.tag_type:	(BOOL.tag_type,\n                                         USINT.tag_type),\n                    STRING.tag_type:	(STRING.tag_type, SINT.tag_type),\n                }", fires=[ 'T-ALLOWED' ], why='seed C05-13' ),
+    V( 'allowed-text-admits-itself', LOGIX, "USINT.tag_type: (BOOL.tag_type,\n USINT.tag_type),\n }", "USINT.tag_type:	(BOOL.tag_type,\n                                         USINT.tag_type),\n                    STRING.tag_type:	(STRING.tag_type,),\n                }", silent=[ 'T-ALLOWED' ] ),
+    V( 'client-next-break-when-starved', CLIENT, "# non-transition from a sub-machine, just loop if input is still available.\n return None", "# non-transition from a sub-machine, just loop if input is still available.\n                    break", fires=[ 'P-ACT' ], why='seed C02-13' ),
+    V( 'snapshot-vector-storage-rebound', DEVICE, "else:\n self.value[key] = value\n return", "else:\n                updated		= list( self.value )\n                updated[key]	= value\n                self.default	= updated\n            return", fires=[ 'R-SNAPSHOT' ], why='seed C09-14' ),
+    V( 'tagloop-same-address-by-text', MAIN, "if device.resolve( te['path'], attribute=True ) == (cls,ins,att):", "if te['path'] == path:", fires=[ 'T-TAGLOOP' ], why='seed C09-15' ),
+    V( 'tagloop-same-address-mirrored', MAIN, "if device.resolve( te['path'], attribute=True ) == (cls,ins,att):", "if (cls,ins,att) == device.resolve( te['path'], attribute=True ):", silent=[ 'T-TAGLOOP' ] ),
+    V( 'route-failed-connection-only-forgotten', UCMM, "failed = self.route_conn.pop( target, None )\n if failed is not None:\n failed.close()", "del self.route_conn[target]", fires=[ 'P-ROUTE' ], why='defect AO reverted' ),
+    V( 'route-failed-connection-del-then-close', UCMM, "failed = self.route_conn.pop( target, None )\n if failed is not None:\n failed.close()", "failed	= self.route_conn[target]\n                            del self.route_conn[target]\n                            failed.close()", silent=[ 'P-ROUTE' ] ),
+    V( 'limits-identity-item-unlimited', PARSER, "ilen[None] = decide( cls.__name__, state=cls( terminal=True, limit='..length' ),", "ilen[None]		= decide( cls.__name__, state=cls( terminal=True, limit=None if cls is identity_object else '..length' ),", fires=[ 'G-LIMITS' ], why='seed C10-14' ),
+    V( 'limits-moved-to-nonconsuming-selector', PARSER, "state = cls( limit='...length', terminal=True ),", "state		= cls( terminal=True ),", fires=[ 'G-LIMITS' ], why='seed C10-15' ),
+    V( 'limits-kwargs-reordered', PARSER, "state = cls( limit='...length', terminal=True ),", "state		= cls( terminal=True, limit='...length' ),", silent=[ 'G-LIMITS' ] ),
+    V( 'udp-status-ends-peer', MAIN, "conn.sendto( rpy, addr )", "conn.sendto( rpy, addr )\n                    if data.response.enip.status:\n                        stats['eof'] = True", fires=[ 'E-CONTAIN' ], why='seed C08-14' ),
+    V( 'pace-lookahead-scaled-at-store', HFILES, "self.lookahead = lookahead", "self.lookahead		= None if lookahead is None else lookahead * self.factor", fires=[ 'H-PACE' ], why='seed C18-15' ),
+    V( 'status-read-data-trimmed-after-range', LOGIX, "and offremains % attribute.parser.struct_calcsize == 0 )\n completed = end == endactual", "and offremains % attribute.parser.struct_calcsize == 0 )\n                    recs		= recs[:max( max_size // attribute.parser.struct_calcsize, 1 )]\n                    completed		= end == endactual", fires=[ 'F-STATUS' ], why='seed C04-13' ),
+    V( 'status-struct-trim-renamed', LOGIX, "trimmed = input[offremains:offremains+max_size]\n recs = dict( input=trimmed )", "cut		= input[offremains:offremains+max_size]\n                    recs		= dict( input=cut )", silent=[ 'F-STATUS' ], why='the UDT branch ( outside C04 ) legitimately replaces the records by their byte rendering' ),
+    V( 'repeat-final-lowered-in-loop', AUTO, 'raise NonTerminal( "%s sub-machine terminated in a non-terminal state, %r" % ( self, source ))\n\n #log.debug( "%s <sub term>", self.name_centered() )', 'raise NonTerminal( "%s sub-machine terminated in a non-terminal state, %r" % ( self, source ))\n            if ending is not None and source.sent >= ending:\n                self.final	= self.cycle\n', fires=[ 'R-REPEAT' ], why='seed C10-13' ),
+    V( 'client-write-refuses-tiles', CLIENT, "tag_type = parser.INT.tag_type\n if offset is None:\n req.write_tag", "tag_type		= parser.INT.tag_type\n        assert elements == len( data )\n        if offset is None:\n            req.write_tag", fires=[ 'F-CLIENT' ], why='seed C04-15' ),
+    V( 'client-write-plain-form-checks-count', CLIENT, "if offset is None:\n req.write_tag = {", "if offset is None:\n            assert elements == len( data )\n            req.write_tag	= {", silent=[ 'F-CLIENT' ] ),
+    V( 'symbol-casefold', DEVICE, "tag_canonical = tag.lower()", "tag_canonical		= tag.casefold()", fires=[ 'T-SYMBOL' ], why='seed C05-14' ),
+    V( 'validate-extent-assert-deleted', LOGIX, 'assert endactual <= cnt, \\\n "Attribute %r elements requested beyond end: %r" % ( attribute, (index[0], endactual) )', 'pass', fires=[ 'D-VALIDATE' ], why='defect AQ reverted' ),
+    V( 'validate-extent-strict', LOGIX, 'assert endactual <= cnt, \\', 'assert endactual < cnt, \\', fires=[ 'D-VALIDATE' ] ),
+    V( 'validate-extent-only-for-writes', LOGIX, 'assert endmax <= endactual, \\', 'assert endactual <= cnt\n            assert endmax <= endactual, \\', silent=[ 'D-VALIDATE' ], why='an additional early check in the write branch changes nothing' ),
+    V( 'validate-extent-mirrored-and-count-dropped', LOGIX, 'assert elm <= cnt, \\\n "Attribute %r elements requested invalid: %r" % ( attribute, elm )\n assert endactual <= cnt, \\', 'assert cnt >= endactual, \\', silent=[ 'D-VALIDATE' ], why='elm <= cnt is implied by beg >= 0 and endactual <= cnt' ),
+    V( 'spectext-name-padded-to-16', PARSER, "result += data.service_name.encode( 'iso-8859-1' )\n result += b'\\0'\n return result", "result		       += struct.pack( '16s', data.service_name.encode( 'iso-8859-1' ))\n        return result", silent=[ 'L-SPECTEXT' ], why='the conformant producer: the known finding AR disappears' ),
 ]
 
 
